@@ -157,7 +157,7 @@ def check(run):
         top = 3 if run.tier == "quick" else 4
         for n in (1, 2):
             for ks in itertools.combinations(small, n):
-                for vs in itertools.product(range(1, top + 1), repeat=n):
+                for vs in itertools.product([v for v in range(-2, top + 1) if v != 0], repeat=n):
                     for q in (0, 1, -1):
                         d = dict(zip(ks, vs))
                         if q:
@@ -186,5 +186,5 @@ def check(run):
                 fails.append(({"kind": "matcher", "db": rel_, "data": d, "select": sel, "ranking": rk}, bad))
     run.notes.append("matcher cases not finished within the time budget (not counted): %d" % skipped_total)
     run.bounded("matcher-on-shipped-databases",
-                "imbalance vectors over <=2 of 8 elements with counts <= %d and charge in -1..1 (exhaustive), plus random sums of <=3 records"
+                "imbalance vectors over <=2 of 8 elements with counts in -2..%d (mixed signs included) and charge in -1..1 (exhaustive), plus random sums of <=3 records"
                 % (3 if run.tier == "quick" else 4), cases, len(distinct), fails[:5], False, samples)
